@@ -44,6 +44,19 @@ def make_grid(spec, share=False):
     raise ValueError(k)
 
 
+def scale_spec(spec, u):
+    """the same grid measured in another length unit (every length multiplied by u; shape and periodicity unchanged)"""
+    out = dict(spec)
+    for key in ("dx", "origin", "z"):
+        if key in out:
+            out[key] = [float(v) * u for v in out[key]]
+    for key in ("R", "r0"):
+        if key in out:
+            out[key] = float(out[key]) * u
+    out.pop("unit", None)  # no longer a UnitGrid
+    return out
+
+
 def dim_of(spec):
     return {"cart": len(spec.get("shape", [])), "polar": 2, "sph": 3, "cyl": 3}[spec["kind"]]
 
